@@ -34,7 +34,7 @@ OPTION_SETS = [
 
 def bounds(tier):
     if tier == "quick":
-        return {"shapes": "cyclic shapes of W-DIG(n<=4, arcs<=5) + 4 named", "R": 2, "B": 2, "W": 2, "F": 4, "flows_per_shape": "all"}
+        return {"shapes": "cyclic shapes of W-DIG(n<=4, arcs<=5) + named shapes with <=6 arcs", "R": 2, "B": 2, "W": 2, "F": 4, "flows_per_shape": "all"}
     return {"shapes": "cyclic shapes of W-DIG(n<=4, arcs<=6) + W-NAMED", "R": 2, "B": 2, "W": 2, "F": 4, "flows_per_shape": "all (named: first 12)"}
 
 
@@ -57,7 +57,7 @@ def cases(tier, seed):
     shapes = [s for s in world.dig_shapes(4, 5 if q else 6) if not world.is_acyclic(*s)]
     named = world.named_shapes()
     if q:
-        named = [s for s in named if len(s[1]) <= 6][:4]
+        named = [s for s in named if len(s[1]) <= 6]
     for idx, shp in enumerate(shapes + named):
         names, arcs = world.present(shp, seed, idx)
         fl = _flows(names, arcs, 2, 2, 2, 4)
@@ -179,14 +179,16 @@ def run(case):
 
     # subset constraints: pairs of arcs (contained in the support of some walk vector <= f)
     pairs = [list(p) for p in itertools.combinations(E, 2)]
-    for cset in [[p] for p in pairs[:8]] + ([[pairs[0], pairs[-1]]] if len(pairs) >= 2 else []):
+    for cset in [[p] for p in pairs[:10]] + ([[pairs[0], pairs[-1]]] if len(pairs) >= 2 else []):
         cons_sets = [set(i for i, v in enumerate(vecs) if all(v[E.index(x)] > 0 for x in c)) for c in cset]
         o3, _ = O.min_decomp(cols(E), fvec, "int", cons_sets)
         if o3 is None:
             continue
-        obs = _solve(case, G, {"weight_type": "int", "subset_constraints": [[list(x) for x in c] for c in cset]})
-        tags["constraints"] += 1
-        judge(f"MinFlowDecompCycles(int, subset_constraints={cset})", obs, o3, cons=cset)
+        for oname, oo in (("default", {}), ("guessed", {"optimize_with_guessed_weights": True}), ("guessed_free", {"optimize_with_guessed_weights": True, "optimize_with_given_weights_num_free_walks": 1}),
+                          ("mingenset", {"use_min_gen_set_lowerbound": True})):
+            obs = _solve(case, G, {"weight_type": "int", "subset_constraints": [[list(x) for x in c] for c in cset], "optimization_options": dict(oo)})
+            tags["constraints"] += 1
+            judge(f"MinFlowDecompCycles(int, subset_constraints={cset}, options={oname})", obs, o3, cons=cset)
         if len(viol) > 4:
             return _ret(viol, nt, tags)
 
